@@ -16,7 +16,7 @@ REQUIRED_THEOREMS = [
     "Cv.C16.interp_left_panic", "Cv.C16.interp_left_fill", "Cv.C16.interp_left_extrapolate",
     "Cv.C16.interp_right_panic", "Cv.C16.interp_right_fill", "Cv.C16.interp_right_extrapolate",
     "Cv.C16.checked_rejects_length", "Cv.C16.checked_rejects_unsorted", "Cv.C16.checked_eq_unchecked",
-    "Cv.C16.panic_mode_rejects", "Cv.C16.interpAll_eq_some_iff", "Cv.C16.interpAll_eq_none_iff",
+    "Cv.C16.panic_mode_rejects", "Cv.C16.checked_total", "Cv.C16.interpAll_eq_some_iff", "Cv.C16.interpAll_eq_none_iff",
 ]
 RULE = ("knot counts 2..200, strictly increasing abscissae with neighbouring spacing ratios up to 1e6, finite ordinates of "
         "mixed magnitude; targets at every kind of position (knots, midpoints, +-1 ulp around knots, random interior, just "
@@ -152,7 +152,7 @@ def gen(rng, tier):
         lines.append(line)
 
     quick = tier == "quick"
-    sizes = list(range(2, 201)) if not quick else sorted(set(list(range(2, 20)) + [rng.randint(20, 200) for _ in range(30)] + [199, 200]))
+    sizes = list(range(2, 201)) if not quick else sorted(set(list(range(2, 41)) + [rng.randint(41, 200) for _ in range(60)] + [199, 200]))
     reps = 1 if quick else 6
     for n in sizes:
         for _ in range(reps):
